@@ -95,7 +95,9 @@ var fromShapes = []fromShape{
 		setSame: func(o map[string]any, v any) { specOf(o)["list"].([]any)[1] = v },
 		getSame: func(o map[string]any) (any, bool) { return specOf(o)["list"].([]any)[1], true }},
 	{name: "annotation", path: ptr("metadata.annotations[" + annKey + "]"), look: lookFoundAn,
-		setSame: func(o map[string]any, v any) { o["metadata"].(map[string]any)["annotations"].(map[string]any)[annKey] = v },
+		setSame: func(o map[string]any, v any) {
+			o["metadata"].(map[string]any)["annotations"].(map[string]any)[annKey] = v
+		},
 		getSame: func(o map[string]any) (any, bool) {
 			return o["metadata"].(map[string]any)["annotations"].(map[string]any)[annKey], true
 		}},
